@@ -6,6 +6,8 @@ What is decided: on every path of one `decode(data)` call, as identities between
     level of the buffer and its source starts at the number of bytes of `data` consumed so far;
   * consumed count == bytes copied; new current_size == c + copied; a finished packet has size E (or
     m + 20) and c + copied == that size; missing == expected - new current_size;
+  * the arithmetic tests that select each path are exactly the reassembler's decision conditions (R16.3):
+    header complete iff c+L >= 20, SmallBuffer iff buffer.len() < m+20, packet complete iff c+L >= E (resp. m+20);
   * both error kinds are produced only after exactly 20 header bytes, with consumed = 20 - c, and hand
     the buffer back; `new` refuses buffers shorter than a header.
 What is NOT decided: the induction over calls (that chunk-by-chunk feeding reproduces the stream) and
@@ -43,6 +45,64 @@ def eq(a, b):
     return la is not None and lb is not None and la == lb
 
 
+def leaf_name(k):
+    """rename the opaque leaves of a linear form to the reassembler's quantities"""
+    if k == 1:
+        return 1
+    if "msg_length" in k and "MessageHeader::try_from" in k:
+        return "m"
+    if k.startswith("('Vec::len'") or k.startswith("('slice::len', 'top:havoc:index_mut") or "buffer" in k and "len" in k:
+        return "B"
+    if "top:data" in k and "len" in k:
+        return "L"
+    if k == repr("top:dec.current_size"):
+        return "c"
+    if k == repr("top:dec.expected_size.0"):
+        return "E"
+    return k
+
+
+def guard_form(g):
+    """(op, a, b, value) -> canonical linear form d meaning `d >= 0` over integers, leaves renamed; None if not linear"""
+    op, a, b, v = g
+    if op not in ("Ge", "Gt", "Le", "Lt"):
+        return None
+    if (op, v) in (("Ge", 1), ("Lt", 0)):
+        d = lin(("op:Sub", a, b))
+    elif (op, v) in (("Ge", 0), ("Lt", 1)):
+        d = lin(("op:Sub", ("op:Sub", b, a), 1))
+    elif (op, v) in (("Gt", 1), ("Le", 0)):
+        d = lin(("op:Sub", ("op:Sub", a, b), 1))
+    else:
+        d = lin(("op:Sub", b, a))
+    if d is None:
+        return None
+    out = {}
+    for k, c in d.items():
+        n = leaf_name(k)
+        out[n] = out.get(n, 0) + c
+    return tuple(sorted(((str(k), c) for k, c in out.items() if c != 0)))
+
+
+def form(**kw):
+    d = {}
+    for k, c in kw.items():
+        d["1" if k == "one" else k] = c
+    return tuple(sorted((k, c) for k, c in d.items() if c != 0))
+
+
+# the decision conditions of a stream reassembler, per path class, as `d >= 0`
+GUARDS = {
+    ("Some", "Decoded"): [form(L=1, c=1, E=-1)],                         # this chunk holds the rest of the packet
+    ("Some", "MoreBytesNeeded"): [form(E=1, c=-1, L=-1, one=-1)],        # ... it does not
+    ("None", "MoreBytesNeeded:None"): [form(one=19, c=-1, L=-1)],        # header still incomplete
+    ("None", "Err:InvalidStunPacket"): [form(c=1, L=1, one=-20)],
+    ("None", "Err:SmallBuffer"): [form(c=1, L=1, one=-20), form(m=1, one=19, B=-1)],   # packet longer than the buffer
+    ("None", "Decoded"): [form(c=1, L=1, one=-20), form(B=1, m=-1, one=-20), form(L=1, c=1, m=-1, one=-20)],
+    ("None", "MoreBytesNeeded:Some"): [form(c=1, L=1, one=-20), form(B=1, m=-1, one=-20), form(m=1, one=19, c=-1, L=-1)],
+}
+
+
 def rng(t):
     """(start, end) trees of a Range / RangeTo node"""
     if isinstance(t, tuple) and t[0] == "Range":
@@ -52,6 +112,12 @@ def rng(t):
     return None
 
 
+def fmt_form(f):
+    if f is None:
+        return "<non-linear test>"
+    return " ".join("%+d*%s" % (c, k) if k != "1" else "%+d" % c for k, c in f) + " >= 0"
+
+
 def check(ctx, env):
     ctx.explanation = (
         "Static: the seven paths of StunPacketDecoder::decode are explored by abstract interpretation with symbolic "
@@ -59,11 +125,13 @@ def check(ctx, env):
         "counts and the updated fields are reconstructed as expression trees and compared as linear forms with the "
         "conservation laws of a stream reassembler (equal copy lengths, destination at the fill level, source at the "
         "consumed offset, consumed = copied, current_size' = current_size + copied, packet size = expected size, "
-        "missing = expected - current_size'). Error paths hand the buffer back with consumed = 20 - current_size. The "
+        "missing = expected - current_size'); the comparisons that select each path are compared, as canonical integer linear forms, with the reassembler's decision conditions. Error paths hand the buffer back with consumed = 20 - current_size. The "
         "induction over calls and byte equality of the copies are NOT decided.")
     ctx.assumptions = ["rustc MIR", "std copy_from_slice copies exactly the source into the destination",
                        "callee models of analysis/models.py", "index safety of these ranges is decided under C03 R3.1"]
     ctx.rule("R16.1", "per-call conservation laws on every path of StunPacketDecoder::decode (linear identities over c, E, L, m)")
+    ctx.rule("R16.3", "the arithmetic tests selecting each path of decode are exactly the reassembler's decision conditions "
+             "(header complete iff c+L>=20; too small iff B<m+20; packet complete iff c+L>=E resp. c+L>=m+20), compared as canonical integer linear forms")
     ctx.rule("R16.2", "StunPacketDecoder::new refuses a buffer shorter than 20 bytes (handing it back) and starts empty")
     prog = env.prog("agent")
     paths, info = C.explore_fn(prog, DEC + "::decode", "dec", [r"\{closure"])
@@ -161,10 +229,23 @@ def check(ctx, env):
                     probs.append("error produced after the header was already accepted")
         else:
             probs.append("unexpected return %s" % show(ret)[:100])
+        # R16.3: the arithmetic tests that select this path
+        cls = kind
+        if kind == "MoreBytesNeeded":
+            cls = kind if known == "Some" else "%s:%s" % (kind, "None" if ret[1][1][2] == "Option::None" else "Some")
+        want = GUARDS.get((known, cls))
+        got = [guard_form(g) for g in pa.guards()]
+        if want is None:
+            ctx.ob("R16.3", key, False, "unexpected path class %s/%s" % (known, cls), info["where"], replay=pa.describe())
+        else:
+            okg = None not in got and sorted(got) == sorted(want)
+            ctx.ob("R16.3", key, okg, "path taken iff %s (expected %s)" % (" and ".join(fmt_form(x) for x in got), " and ".join(fmt_form(x) for x in want)),
+                   info["where"], replay=None if okg else pa.describe())
         ok = not probs
         ctx.ob("R16.1", key, ok, "; ".join(probs) or "conservation laws hold (%d copies, total copied %s)" % (len(copies), show(total)[:90]),
                info["where"], replay=None if ok else pa.describe())
     ctx.floor("R16.1", "decode paths", n, 7)
+    ctx.floor("R16.3", "decode paths", n, 7)
     kinds = {}
     # new()
     paths, info = C.explore_fn(prog, DEC + "::new", "x", [r"\{closure"])
